@@ -26,6 +26,12 @@ func main() {
 		os.Exit(2)
 	}
 	switch args[0] {
+	case "mutants":
+		if len(args) < 2 {
+			fmt.Println("usage: govc mutants <PROPERTY>")
+			os.Exit(2)
+		}
+		os.Exit(govc.RunMutantsCmd(*verif, *repo, args[1]))
 	case "check":
 		if len(args) < 3 {
 			fmt.Println("usage: govc check <PROPERTY> quick|thorough")
